@@ -177,8 +177,7 @@ theorem cut_recut (lsb0 : Bool) (n k : Nat) (hn : n ≠ 0) (hk : k ≠ 0) (l : B
   | true =>
     simp only [cut, if_true]
     rw [← cutMsb_recut n k hn hk l.reverse, List.flatMap_map, List.map_flatMap]
-    trace_state
-    simp only [List.reverse_reverse]
+    simp only [cut, if_true, List.reverse_reverse]
 
 theorem cut_ne_nil (lsb0 : Bool) (n : Nat) (hn : n ≠ 0) (l : Bits) (hl : l ≠ []) : cut lsb0 n l ≠ [] := by
   cases lsb0 with
@@ -307,7 +306,7 @@ theorem ppGroups_formatBits (lsb0 : Bool) (bits : Bits) (bpg : Nat) (sep : Str) 
   · simp only [hb, if_true] at h ⊢
     unfold getDigits at h
     split at h
-    · split at h <;> exact absurd h (by simp)
+    · exact absurd h (by simp)
     · rename_i d hd
       split at hd
       · exact absurd hd (by simp)
@@ -397,11 +396,16 @@ theorem ppLines_rel (c : PPCfg) (data : Bits) (lines : List Line) (h : ppLines c
       intro hb
       unfold maxBitsPerLine at hm
       have hpos : c.bpg > 0 := Nat.pos_of_ne_zero hb
-      simp only [hpos, if_true] at hm
-      split at hm
-      · exact absurd hm (by simp)
-      · simp only [Except.ok.injEq] at hm
-        exact ⟨_, by omega, hm.symm⟩
+      rw [if_pos hpos] at hm
+      have key : ∀ (tot wex : Nat) (e : Err),
+          (if tot = 0 then Except.error e else Except.ok ((1 + wex / tot) * c.bpg)) = Except.ok m →
+          ∃ k, k ≠ 0 ∧ m = k * c.bpg := by
+        intro tot wex e hh
+        split at hh
+        · exact absurd hh (by simp)
+        · simp only [Except.ok.injEq] at hh
+          exact ⟨1 + wex / tot, by generalize wex / tot = q; omega, hh.symm⟩
+      exact key _ _ _ hm
 
 theorem ppData_eq (lsb0 : Bool) (l : Bits) (t : Nat) (ht : t ≤ l.length) :
     (if t = 0 then l else dataPart lsb0 l t) = ppData lsb0 l t := by
@@ -464,5 +468,143 @@ theorem pp_rel (a : PPArgs) (lay : Layout) (bpg : Nat) (hasLen : Bool)
       List.Forall₂ (ppRel (cfgOf a bpg))
         (cut a.lsb0 m (ppData a.lsb0 a.l (trailingLen a.l.length bpg hasLen))) lay.lines :=
   ppLines_rel (cfgOf a bpg) _ _ (pp_unfold a lay bpg hasLen ht h).1
+
+/-! ## from the chunk/line relation to the columns -/
+
+theorem ppForall_mem {α β} (R : α → β → Prop) :
+    ∀ (l1 : List α) (l2 : List β), List.Forall₂ R l1 l2 → ∀ y ∈ l2, ∃ x ∈ l1, R x y := by
+  intro l1 l2 h
+  induction h with
+  | nil => intro y hy; simp at hy
+  | cons hxy _ ih =>
+    intro y hy
+    rcases List.mem_cons.mp hy with rfl | hy
+    · exact ⟨_, List.mem_cons_self .., hxy⟩
+    · obtain ⟨x, hx, hr⟩ := ih y hy
+      exact ⟨x, List.mem_cons_of_mem _ hx, hr⟩
+
+theorem ppForall_map {α β γ} (R : α → β → Prop) (g : α → γ) (col : β → γ) (P : α → Prop)
+    (hR : ∀ x y, R x y → col y = g x ∧ P x) :
+    ∀ (l1 : List α) (l2 : List β), List.Forall₂ R l1 l2 → l2.map col = l1.map g ∧ ∀ x ∈ l1, P x := by
+  intro l1 l2 h
+  induction h with
+  | nil => simp
+  | cons hxy _ ih =>
+    obtain ⟨h1, h2⟩ := hR _ _ hxy
+    refine ⟨by rw [List.map_cons, List.map_cons, h1, ih.1], ?_⟩
+    intro x hx
+    rcases List.mem_cons.mp hx with rfl | hx
+    · exact h2
+    · exact ih.2 x hx
+
+/-- Both columns of every line, in terms of the chunks. -/
+theorem pp_cols (a : PPArgs) (lay : Layout) (bpg : Nat) (hasLen : Bool)
+    (ht : processTokens a.t1 a.t2 = .ok (bpg, hasLen)) (h : pp a = .ok lay) :
+    ∃ m, m ≠ 0 ∧ (bpg ≠ 0 → ∃ k, k ≠ 0 ∧ m = k * bpg) ∧
+      (lay.lines.map (·.groups1) =
+          (cut a.lsb0 m (ppData a.lsb0 a.l (trailingLen a.l.length bpg hasLen))).map (ppGroups a.lsb0 bpg a.t1.fmt) ∧
+        ∀ ch ∈ cut a.lsb0 m (ppData a.lsb0 a.l (trailingLen a.l.length bpg hasLen)),
+          ppFmtOk a.lsb0 bpg a.t1.fmt ch) ∧
+      ∀ t2, a.t2 = some t2 →
+        (lay.lines.map (fun ln => ln.groups2.getD []) =
+          (cut a.lsb0 m (ppData a.lsb0 a.l (trailingLen a.l.length bpg hasLen))).map (ppGroups a.lsb0 bpg t2.fmt) ∧
+        ∀ ch ∈ cut a.lsb0 m (ppData a.lsb0 a.l (trailingLen a.l.length bpg hasLen)),
+          ppFmtOk a.lsb0 bpg t2.fmt ch) := by
+  obtain ⟨m, hm, hk, hrel⟩ := pp_rel a lay bpg hasLen ht h
+  refine ⟨m, hm, hk, ?_, ?_⟩
+  · refine ppForall_map _ _ _ _ ?_ _ _ hrel
+    intro x y hxy
+    exact hxy.1
+  · intro t2 ht2
+    refine ppForall_map _ _ _ _ ?_ _ _ hrel
+    intro x y hxy
+    have h2 := hxy.2
+    have hf2 : (cfgOf a bpg).f2 = some t2.fmt := by simp [cfgOf, ht2]
+    rw [hf2] at h2
+    simp only at h2
+    exact ⟨by rw [h2.1]; rfl, h2.2⟩
+
+theorem groups_flatten_length_mod (k : Nat) :
+    ∀ gs : List Bits, (∀ g ∈ gs, g.length % k = 0) → gs.flatten.length % k = 0 := by
+  intro gs
+  induction gs with
+  | nil => intro _; simp
+  | cons g gs ih =>
+    intro hg
+    rw [List.flatten_cons, List.length_append, Nat.add_mod, hg g (List.mem_cons_self ..),
+      ih (fun x hx => hg x (List.mem_cons_of_mem _ hx))]
+    simp
+
+theorem ppGroups_atomic (lsb0 : Bool) (bpg k : Nat) (f : Fmt) (data : Bits) (hb : bpg ≠ 0) (hk : k ≠ 0) :
+    ((cut lsb0 (k * bpg) data).map (ppGroups lsb0 bpg f)).flatten = (groupsOf lsb0 bpg data).map (digits f) := by
+  have hfun : ppGroups lsb0 bpg f = fun ch => (cut lsb0 bpg ch).map (digits f) := by
+    funext ch; simp only [ppGroups, if_neg hb]
+  unfold groupsOf
+  rw [← cut_recut lsb0 bpg k hb hk data, List.map_flatMap, ← List.flatMap_def, hfun]
+
+theorem ppGroups_digits_msb0 (bpg : Nat) (f : Fmt) :
+    ∀ chunks : List Bits, (∀ ch ∈ chunks, ppFmtOk false bpg f ch) →
+      (chunks.map (ppGroups false bpg f)).flatten.flatten = digits f chunks.flatten := by
+  intro chunks
+  induction chunks with
+  | nil => intro _; simp [digitsL_nil]
+  | cons ch rest ih =>
+    intro hok
+    obtain ⟨hlen, hfl⟩ := hok ch (List.mem_cons_self ..)
+    simp only [Bool.false_eq_true, if_false] at hfl
+    rw [List.map_cons, List.flatten_cons, List.flatten_append, hfl,
+      ih (fun x hx => hok x (List.mem_cons_of_mem _ hx)), List.flatten_cons, digitsL_append f ch _ hlen]
+
+theorem ppGroups_digits_lsb0 (bpg : Nat) (f : Fmt) :
+    ∀ chunks : List Bits, (∀ ch ∈ chunks, ppFmtOk true bpg f ch) →
+      (chunks.map (ppGroups true bpg f)).flatten.reverse.flatten = digits f chunks.reverse.flatten := by
+  intro chunks
+  induction chunks with
+  | nil => intro _; simp [digitsL_nil]
+  | cons ch rest ih =>
+    intro hok
+    obtain ⟨hlen, hfl⟩ := hok ch (List.mem_cons_self ..)
+    simp only [if_true] at hfl
+    have hrest : ∀ x ∈ rest, ppFmtOk true bpg f x := fun x hx => hok x (List.mem_cons_of_mem _ hx)
+    have hmod : rest.reverse.flatten.length % f.bpc = 0 :=
+      groups_flatten_length_mod f.bpc _ (fun g hg => (hrest g (List.mem_reverse.mp hg)).1)
+    rw [List.map_cons, List.flatten_cons, List.reverse_append, List.flatten_append, hfl, ih hrest,
+      List.reverse_cons, List.flatten_append, List.flatten_singleton, digitsL_append f _ ch hmod]
+
+theorem ppGroups_digits (lsb0 : Bool) (bpg m : Nat) (f : Fmt) (data : Bits) (hm : m ≠ 0)
+    (hok : ∀ ch ∈ cut lsb0 m data, ppFmtOk lsb0 bpg f ch) :
+    (if lsb0 then ((cut lsb0 m data).map (ppGroups lsb0 bpg f)).flatten.reverse.flatten
+     else ((cut lsb0 m data).map (ppGroups lsb0 bpg f)).flatten.flatten) = digits f data := by
+  have hf := cut_flatten lsb0 m hm data
+  cases lsb0 with
+  | false =>
+    simp only [Bool.false_eq_true, if_false] at hf ⊢
+    rw [ppGroups_digits_msb0 bpg f _ hok, hf]
+  | true =>
+    simp only [if_true] at hf ⊢
+    rw [ppGroups_digits_lsb0 bpg f _ hok, hf]
+
+theorem ppGroups_representable (lsb0 : Bool) (bpg m : Nat) (f : Fmt) (data : Bits) (hm : m ≠ 0)
+    (hok : ∀ ch ∈ cut lsb0 m data, ppFmtOk lsb0 bpg f ch) : data.length % f.bpc = 0 :=
+  cut_flatten_length_mod lsb0 m hm data f.bpc (fun g hg => (hok g hg).1)
+
+theorem ppGroups_length (lsb0 : Bool) (bpg : Nat) (f f' : Fmt) (ch : Bits) :
+    (ppGroups lsb0 bpg f ch).length = (ppGroups lsb0 bpg f' ch).length := by
+  unfold ppGroups
+  split <;> simp
+
+theorem ppGroups_ne_nil (lsb0 : Bool) (bpg : Nat) (f : Fmt) (ch : Bits) (hch : ch ≠ []) :
+    ppGroups lsb0 bpg f ch ≠ [] := by
+  unfold ppGroups
+  split
+  · simp
+  · rename_i hb
+    intro h
+    exact cut_ne_nil lsb0 bpg hb ch hch (List.map_eq_nil_iff.mp h)
+
+theorem cut_mem_ne_nil (lsb0 : Bool) (n : Nat) (hn : n ≠ 0) (l : Bits) (g : Bits) (hg : g ∈ cut lsb0 n l) :
+    g ≠ [] := by
+  have := ((cut_sizes lsb0 n hn l).1 g hg).1
+  exact List.length_pos_iff.mp this
 
 end BM.C19
